@@ -499,6 +499,9 @@ func scheduleScenarios(r *ev.Run, t *gcore.Type) {
 			return vsync.Harness{Threads: bodies}
 		}
 		st := vsync.Explore(vsync.Config{Preemptions: sc.pb}, mk)
+		if st.Diverged > 0 {
+			r.Cap(fmt.Sprintf("schedule scenario: %d executions did not reproduce their prefix (%s): exploration incomplete, see the race pass", st.Diverged, st.DivergedExample))
+		}
 		r.Traces(st.Execs)
 		r.States(st.Points)
 		r.Transitions(st.Points)
